@@ -1038,6 +1038,88 @@ def run_C17(ctx):
             ctx.fail(c, "capacity %d < %d completed headers but the result is not TooManyHeaders" % (cap, kinf), impl=a)
 
 
+    run_C17_reused(ctx)
+
+
+def _bycontent(txt, last):
+    return re.sub(r"(\d+)\+(\d+)", lambda m: "x" + last[int(m.group(1)):int(m.group(1)) + int(m.group(2))].hex(), txt)
+
+
+def run_C17_reused(ctx):
+    """the storage clauses on REUSED values: after earlier calls on the same Request / Response, a Complete probe exposes
+       exactly the headers a fresh value would (count and contents); after Partial / Err the initialised entry points leave
+       `headers` as long as it was before the call and the uninit entry points leave it untouched"""
+    q = ctx.quick
+    r = Rng(ctx.seed).fork("c17h")
+    zero = {"q": [b"GET / HTTP/1.1\r\n\r\n", b"GET /x HTTP/1.0\n\n", b"POST /a HTTP/1.1\r\n\n"],
+            "p": [b"HTTP/1.1 200 OK\r\n\r\n", b"HTTP/1.0 204\n\n", b"HTTP/1.1 100 Continue\r\n\r\n"]}
+    hs, pres, meta = [], [], []
+    for i in range(2000 if q else 50000):
+        kind = "qp"[i % 2]
+        cap = r.choice([1, 2, 3, 4, 8])
+        pre = []
+        for j in range(1 + r.below(2)):
+            b = gen.GRAM[kind](r, lenient=r.below(2))
+            t = r.below(5)
+            if t == 0:
+                b = b[:r.below(len(b) + 1)]
+            elif t == 1:
+                b = gen.mutate(r, b)
+            pre.append((r.below(4), r.choice(gen.relevant_cfgs(kind)), r.choice([1, 2, 4, 8]), b))
+        t = r.below(6)
+        if t <= 1:
+            b = r.choice(zero[kind])
+        else:
+            b = gen.GRAM[kind](r, lenient=r.below(2))
+            if t == 2:
+                b = b[:r.below(len(b) + 1)]
+            elif t == 3:
+                b = gen.mutate(r, b)
+        probe = (r.below(4), r.choice(gen.relevant_cfgs(kind)), r.choice([0, 1, 2, 4, 8]), b)
+        hs.append(("H", "c17r.%d" % i, kind, cap, pre + [probe]))
+        pres.append(("H", "c17r.%d.pre" % i, kind, cap, pre))
+        meta.append((kind, cap, pre, probe))
+    res = execute("C17-reused", hs + pres)
+    ctx.broken += res.errors
+    for cid, iraw in res.impl.items():
+        if cid in res.model:
+            ctx.validated += 1
+            last = res.cases[cid][4][-1][3]
+            if _bycontent(res.model[cid], last) != _bycontent(iraw, last):
+                ctx.mismatch(res.cases[cid], iraw, res.model[cid])
+    fresh = []
+    for i, (kind, cap, pre, probe) in enumerate(meta):
+        o = res.impl.get("c17r.%d" % i)
+        if o is None:
+            continue
+        e, cf, uc, b = probe
+        fresh.append(("A", "c17r.%d.fresh" % i, kind, e, cf, uc if e >= 2 else int(Obs(o).start or 0), b))
+    res2 = execute("C17-reused-fresh", fresh, want_model=False)
+    ctx.broken += res2.errors
+    for i, (kind, cap, pre, probe) in enumerate(meta):
+        a, pz, f = res.impl.get("c17r.%d" % i), res.impl.get("c17r.%d.pre" % i), res2.impl.get("c17r.%d.fresh" % i)
+        if a is None or pz is None or f is None:
+            continue
+        ctx.evaluations += 1
+        A, P, F = Obs(a), Obs(pz), Obs(f)
+        e, cf, uc, b = probe
+        h = hs[i]
+        ctx.count("reused:" + A.kindclass + ("/uninit" if e >= 2 else "/init"))
+        if A.kindclass == "C":
+            if F.kindclass == "C" and A.exposed != F.exposed:
+                ctx.fail(h, "Complete on a reused value exposes %d element(s) %s; a fresh value with the same buffer, configuration "
+                         "and capacity exposes %d: %s" % (len(A.exposed), " ".join(A.exposed)[:120], len(F.exposed), f), impl=a)
+        elif A.kindclass in "PE":
+            before = [_bycontent(t, pre[-1][3]) for t in P.exposed]
+            after = [_bycontent(t, b) for t in A.exposed]
+            if e < 2 and len(after) != int(A.start or 0):
+                ctx.fail(h, "after %s an initialised entry point left `headers` with %d element(s); it had %s before the call"
+                         % (A.status, len(after), A.start), impl=a)
+            elif e >= 2 and after != before:
+                ctx.fail(h, "after %s an uninit entry point changed `headers`: before %s, after %s"
+                         % (A.status, " ".join(before)[:120], " ".join(after)[:120]), impl=a)
+
+
 # ---------------------------------------------------------------- C18
 def run_C18(ctx):
     if not need(ctx, ["default"]):
@@ -1123,10 +1205,15 @@ def run_C19(ctx):
                  + " | ".join(err)[:400])
         check_all_switches_build(ctx, stds=(False,))
         return
-    cases = api_main(ctx) + corpora.fam_chunk(ctx.seed, 1000 if ctx.quick else 30000) + extras(ctx, "C14")
-    for variant in ("default", "nostd"):
-        res = execute("C19", cases, variant=variant, mode="alloc", want_model=False)
+    cases = api_main(ctx) + corpora.fam_chunk(ctx.seed, 1000 if ctx.quick else 30000) + extras(ctx, "C14") \
+        + [c for c in corpora.adversarial(ctx.seed, [1024, 8192]) if not c[1].endswith(".big")]
+    # every build the property speaks about: optimised and debug-assertions builds, every backend the
+    # runtime dispatch can choose (forced through the C13 hook), and the no_std build
+    need(ctx, ["dbg"])
+    for variant, force in (("default", None), ("default", 2), ("default", 3), ("dbg", None), ("dbg", 3), ("nostd", None)):
+        res = execute("C19", cases, variant=variant, force=force, mode="alloc", want_model=False)
         ctx.broken += res.errors
+        variant = variant + ("" if force is None else "/backend%d" % force)
         for cid, iraw in res.impl.items():
             ctx.evaluations += 1
             c = res.cases[cid]
